@@ -659,7 +659,7 @@ func body(w *hx.W) {
 			}
 		}
 	}
-	nSeq := w.Pick(30, 700) // random histories per configuration
+	nSeq := w.Pick(30, 3000) // random histories per configuration
 	ci := 0
 	for _, cfg := range cfgs {
 		ci++
